@@ -100,7 +100,8 @@ def replay (g : Graph Nat) (n k : Nat) (labels : List Json) : Except String Outc
       | none => return { accepted := i, reject := some s!"receive {t}: not enabled", state := s }
       | some s' =>
         let s1 : State Nat := { s with phase := fun x => if x = t then .completed else s.phase x }
-        let p := if s.aborted then [] else popped g s1 n
+        -- after an interrupt the loop of `skip_all_tasks` releases everything that is runnable now (no worker bound)
+        let p := if s.aborted then popped g s1 g.tasks.length else popped g s1 n
         if p != disp then
           return { accepted := i, reject := some s!"receive {t}: model dispatches {p}, implementation dispatched {disp}", state := s }
         s := normalize k s'
@@ -109,7 +110,7 @@ def replay (g : Graph Nat) (n k : Nat) (labels : List Json) : Except String Outc
       match step g n s .interrupt with
       | none => return { accepted := i, reject := some "interrupt: already aborted", state := s }
       | some s' =>
-        let p := g.tasks.filter (fun t => s.phase t == .remaining)
+        let p := popped g s g.tasks.length
         if p != disp then
           return { accepted := i, reject := some s!"interrupt: model schedules {p} for skipping, implementation {disp}", state := s }
         s := normalize k s'
